@@ -377,7 +377,9 @@ template <class T> static void condAndInverseCase(vh::Rng& g, int n, int cls) {
         // numerical rank 1 of a larger matrix: FactorQTZRep assigns actualRCond only when the rank loop *increments* the rank
         // (FactorQTZ.cpp:403-414), so for rank 1 it is never assigned and getRCondEstimate() returns 0 (true value 1) - the same
         // root cause as the listed qtz.rcond.min_dim_1.zero, reached through a different input class: own narrow key
-        vh::P("rcond_estimate_consistent", rank == 1 ? std::string("qtz.rcond.rank_1.zero") : "qtz.rcond." + key + ".vs_singular_values", ratio, 4.0);
+        // (the rank-1 key is Boolean - 1 = estimate not within a factor 4 of sigma_r/sigma_1 - so that the listed finding's cap 1 applies)
+        if (rank == 1) vh::P("rcond_estimate_consistent", "qtz.rcond.rank_1.zero", ratio <= 4.0 ? 0 : 1, 0);
+        else vh::P("rcond_estimate_consistent", "qtz.rcond." + key + ".vs_singular_values", ratio, 4.0);
         if (rank == 1) vh::D("rcond.rank1");
     }
     // inverses reported by FactorQTZ and FactorSVD
